@@ -310,6 +310,18 @@ func init() {
 		return v
 	})
 	reg([]string{"math/rand.Uint32"}, nil, noop)
+	// net.ListenTCP / net.ListenUDP: a listener unless an error; (*net.TCPListener).Addr: the listener's *net.TCPAddr
+	reg([]string{"net.ListenTCP", "net.ListenUDP"}, nil, func(e *Eng, fr *Frame, c *ssa.CallCommon, args []*Val, st *State, g string, pos token.Pos) *Val {
+		res := e.havocResults(c, st)
+		e.sc.assume(implies(eq(res.Tup[1].T, "0"), not(eq(res.Tup[0].T, "0"))), "net.Listen*: a listener is returned unless an error is")
+		return res
+	})
+	reg([]string{"(*net.TCPListener).Addr"}, nil, func(e *Eng, fr *Frame, c *ssa.CallCommon, args []*Val, st *State, g string, pos token.Pos) *Val {
+		pt := types.NewPointer(e.ld.typeOf("net.TCPAddr"))
+		p := e.havocVal(st, "tcpaddr", pt)
+		e.sc.assume(not(eq(p.T, "0")), "(*net.TCPListener).Addr returns the listener's *net.TCPAddr")
+		return e.makeIface(p, pt, c.Signature().Results().At(0).Type(), "lnaddr")
+	})
 	// net.ParseCIDR: documented contract: (IP, *IPNet, nil) with a non-nil network, or (nil, nil, error)
 	reg([]string{"net.ParseCIDR"}, nil, func(e *Eng, fr *Frame, c *ssa.CallCommon, args []*Val, st *State, g string, pos token.Pos) *Val {
 		res := e.havocResults(c, st)
